@@ -134,6 +134,7 @@ def draw_history(cs, cfg):
         sc["kind"] = cs.draw(len(AC.ALL_KINDS), "kind")
         sc["fkind"] = ["method", "pf", "sibling", "multisibling"][cs.weighted([5, 1, 2, 1], "fkind")]
         sc["kind2"] = cs.draw(len(AC.ALL_KINDS), "kind2") if sc["fkind"] == "multisibling" else None
+        sc["extra_param"] = sc["fkind"] in ("sibling", "multisibling") and cs.bool("extra_param", 1, 2)
     elif sc["family"] == 1:
         sc["kind"] = cs.draw(len(AC.LO_KINDS), "lokind")
         sc["composite"] = cs.weighted([3, 1, 1, 1], "composite")
@@ -153,7 +154,9 @@ def draw_history(cs, cfg):
     else:
         fam = 1 if sc["family"] == 1 else 0
         sc["F"] = C10.draw_functional(cs, {"family": fam, "kind": sc["kind"], "composite": sc["composite"]})
-    sc["usage"] = ["fwd", "bwd", "bwd2"][cs.weighted([1, 2, 2], "usage")]
+    # "bwdg": the graph-recording backward pass is the LAST thing the caller does with the result (the third usage the
+    # statement names); in "bwd2" a further, plain backward pass through the recorded graph follows
+    sc["usage"] = ["fwd", "bwd", "bwd2", "bwdg"][cs.weighted([1, 2, 2, 2], "usage")]
     # second-order usage through the accumulating API: the last pass is loss.backward(create_graph=True), which
     # stores a gradient with history on every leaf of the graph; the caller then clears .grad of every leaf it
     # owns (linear-operator family only: there every leaf of the call is one the harness holds)
@@ -233,10 +236,12 @@ def _one_call_body(sc, env):
         SIM.count("reach.result_cached_on_the_object")
     keep = [loss]
     if sc["usage"] != "fwd" and loss.requires_grad and leaves:
-        cg = sc["usage"] == "bwd2"
+        cg = sc["usage"] in ("bwd2", "bwdg")
         g = torch.autograd.grad(loss, leaves, create_graph=cg, allow_unused=True, retain_graph=True)
         keep.append(g)
-        if cg:
+        if sc["usage"] == "bwdg":
+            SIM.count("reach.graph_recording_backward_last")
+        if sc["usage"] == "bwd2":
             gs = [x for x in g if x is not None and x.requires_grad]
             if gs:
                 l2 = sum((x * x).sum() for x in gs)
